@@ -227,11 +227,11 @@ def nontrivial(stream, case):
 
 
 def desc_line(d):
-    return " ".join("%s=%s" % (k, v) for k, v in sorted(d.items()) if k not in ("participant", "text", "lead", "trail", "body"))
+    return " ".join("%s=%s" % (k, v) for k, v in sorted(d.items()) if k not in ("participant", "text", "lead", "trail", "body", "dev"))
 
 
 def desc_show(d):
-    return desc_line(d) + (" [body variant %d]" % d["body"] if d.get("body") else "") + ("".join(" [an unknown element %s the stanza's own children]" % ("before" if k == "lead" else "after") + (" (with %d bytes of data)" % d[k] if d[k] > 1 else "") for k in ("lead", "trail") if d.get(k)))
+    return desc_line(d) + (" [sender is a device: user:7@server]" if d.get("dev") else "") + (" [body variant %d]" % d["body"] if d.get("body") else "") + ("".join(" [an unknown element %s the stanza's own children]" % ("before" if k == "lead" else "after") + (" (with %d bytes of data)" % d[k] if d[k] > 1 else "") for k in ("lead", "trail") if d.get(k)))
 
 
 def observe_recv(chk, case, seq):
